@@ -13,6 +13,7 @@ import (
 	"time"
 
 	"golang.org/x/tools/go/ssa"
+	"golang.org/x/tools/go/ssa/ssautil"
 
 	"verif/engine/smt"
 	"verif/engine/sym"
@@ -332,6 +333,20 @@ func RunProperty(opt Options) int {
 		return 2
 	}
 	ld.Eng.Debug = opt.Debug
+	if fnName := os.Getenv("VERIF_LIVEDUMP"); fnName != "" {
+		for _, sp := range ld.Pkgs {
+			for _, m := range sp.Members {
+				if t, ok := m.(*ssa.Type); ok {
+					_ = t
+				}
+			}
+		}
+		for fn := range ssautilAllFunctions(ld.Prog) {
+			if fn.String() == fnName {
+				fmt.Println(ld.Eng.DumpLive(fn))
+			}
+		}
+	}
 	base, initNotes, err := initState(ld)
 	if err != nil {
 		fmt.Println("BROKEN init:", err)
@@ -424,6 +439,9 @@ func RunProperty(opt Options) int {
 			broken = append(broken, name+": "+res.Err)
 		}
 		for k, v := range res.EndMsgs {
+			if strings.HasPrefix(k, "blocked") && res.Job.H.BlockOK {
+				continue
+			}
 			if strings.HasPrefix(k, "unknown") || strings.HasPrefix(k, "bound") || strings.HasPrefix(k, "blocked") {
 				inconclusive = append(inconclusive, fmt.Sprintf("%s: %s (x%d)", name, k, v))
 			}
@@ -605,6 +623,8 @@ func assumptionsFor(prop string, ld *Loaded) []string {
 	}
 	return a
 }
+
+func ssautilAllFunctions(p *ssa.Program) map[*ssa.Function]bool { return ssautil.AllFunctions(p) }
 
 func solverName(opt Options) string {
 	if opt.Solver == "" {
